@@ -244,6 +244,22 @@ def footprintSel (sel : Int → Int → Bool) (data : Arr F) (rows cols krows kc
 def footprint (data kernel : Arr F) (rows cols krows kcols : Nat) (y x : Int) : List F :=
   footprintSel (fun a b => Fl.eq (kernel a b) (Fl.lit 1 1)) data rows cols krows kcols y x
 
+theorem mem_allCells (r c : Nat) (p : Int × Int) :
+    p ∈ allCells r c ↔ ∃ a b : Nat, a < r ∧ b < c ∧ p = ((a : Int), (b : Int)) := by
+  simp only [allCells, List.mem_flatMap, List.mem_map, List.mem_range]
+  constructor
+  · rintro ⟨a, ha, b, hb, rfl⟩; exact ⟨a, b, ha, hb, rfl⟩
+  · rintro ⟨a, b, ha, hb, rfl⟩; exact ⟨a, ha, b, hb, rfl⟩
+
+/-- `mapM` in `Except` when every element succeeds -/
+theorem mapM_ok {α β : Type} (l : List α) (f : α → Except String β) (g : α → β)
+    (h : ∀ a ∈ l, f a = .ok (g a)) : l.mapM f = .ok (l.map g) := by
+  induction l with
+  | nil => rfl
+  | cons a rest ih =>
+    rw [List.mapM_cons, h a List.mem_cons_self, ih (fun a' ha' => h a' (List.mem_cons_of_mem _ ha'))]
+    rfl
+
 theorem flatten_windowOf (b : Arr F) (r c : Nat) :
     (windowOf b r c).flatten = (allCells r c).map fun p => b p.1 p.2 := by
   unfold windowOf allCells
@@ -466,6 +482,131 @@ theorem nanvar_eq (w : List (NV K)) :
 theorem nanstd_eq (w : List (NV K)) :
     nanstd w = if vals w = [] then none else some (Trig.sqrt (popVar (vals w))) := by
   unfold nanstd; rw [nanvar_eq]; split <;> simp
+
+/-! ### the footprint of the window, and negation (used by `hotspots_negate`) -/
+
+theorem fl_eq_one (k : NV K) : (Fl.eq k (Fl.lit 1 1 : NV K) = true) ↔ k = some 1 := by
+  cases k with
+  | none => simp
+  | some a => simp
+
+/-- the non-NaN cells the reducer sees are exactly the non-NaN input cells under the 1-entries of the kernel
+    (clipped at the raster edge), in row-major order -/
+theorem vals_specWindow (data kernel : Arr (NV K)) (rows cols krows kcols : Nat) (y x : Int) :
+    vals (specWindow data kernel rows cols krows kcols y x).flatten =
+      vals (footprint data kernel rows cols krows kcols y x) := by
+  unfold specWindow footprint footprintSel vals
+  rw [flatten_windowOf, List.filterMap_map, List.filterMap_filterMap]
+  apply List.filterMap_congr
+  intro p _
+  simp only [Function.comp, gatherSpec, nanArr, id]
+  generalize y - ((krows / 2 : Nat) : Int) + p.1 = i
+  generalize x - ((kcols / 2 : Nat) : Int) + p.2 = j
+  by_cases h1 : 0 ≤ i <;> by_cases h2 : i < (rows : Int) <;> by_cases h3 : 0 ≤ j <;>
+    by_cases h4 : j < (cols : Int) <;> simp [h1, h2, h3, h4] <;> split <;> rfl
+
+/-- the raster with every cell negated -/
+def negArr (d : Arr (NV K)) : Arr (NV K) := fun i j => Fl.neg (d i j)
+
+theorem vals_map_neg (l : List (NV K)) : vals (l.map Fl.neg) = (vals l).map fun v => -v := by
+  induction l with
+  | nil => rfl
+  | cons a rest ih =>
+    cases a with
+    | none =>
+      have : vals ((none :: rest).map Fl.neg) = vals (rest.map Fl.neg) := rfl
+      rw [this, ih]; rfl
+    | some v =>
+      have : vals ((some v :: rest).map Fl.neg) = (-v) :: vals (rest.map Fl.neg) := rfl
+      rw [this, ih]; rfl
+
+theorem sum_map_neg (l : List K) : (l.map fun v => -v).sum = -l.sum := by
+  induction l with
+  | nil => simp
+  | cons a rest ih => simp [ih]; ring
+
+theorem nanmean_neg (l : List (NV K)) : nanmean (l.map Fl.neg) = Fl.neg (nanmean l) := by
+  rw [nanmean_eq, nanmean_eq, vals_map_neg, sum_map_neg, List.length_map]
+  by_cases h : vals l = []
+  · simp [h]
+  · simp [h, neg_div]
+
+theorem popVar_neg (l : List K) : popVar (l.map fun v => -v) = popVar l := by
+  unfold popVar
+  rw [sum_map_neg, List.length_map, List.map_map]
+  congr 2
+  apply List.map_congr_left
+  intro v _
+  simp only [Function.comp]
+  ring
+
+theorem nanstd_neg (l : List (NV K)) : nanstd (l.map Fl.neg) = nanstd l := by
+  rw [nanstd_eq, nanstd_eq, vals_map_neg, popVar_neg]
+  simp
+
+theorem cellsOf_neg (d : Arr (NV K)) (r c : Nat) : cellsOf (negArr d) r c = (cellsOf d r c).map Fl.neg := by
+  unfold cellsOf negArr; rw [List.map_map]; rfl
+
+theorem fl_add_neg (a b : NV K) : Fl.add (Fl.neg a) (Fl.neg b) = Fl.neg (Fl.add a b) := by
+  cases a <;> cases b <;> simp [neg_add]
+  ring
+
+theorem fl_mul_neg (a b : NV K) : Fl.mul a (Fl.neg b) = Fl.neg (Fl.mul a b) := by
+  cases a <;> cases b <;> simp
+
+theorem foldl_add_neg (l : List (NV K)) (acc : NV K) :
+    (l.map Fl.neg).foldl Fl.add (Fl.neg acc) = Fl.neg (l.foldl Fl.add acc) := by
+  induction l generalizing acc with
+  | nil => rfl
+  | cons a rest ih => simp only [List.map_cons, List.foldl_cons, fl_add_neg, ih]
+
+theorem fsum_neg (l : List (NV K)) : fsum (l.map Fl.neg) = Fl.neg (fsum l) := by
+  unfold fsum
+  have : (Fl.lit 0 1 : NV K) = Fl.neg (Fl.lit 0 1) := by simp
+  rw [this, foldl_add_neg]
+  simp
+
+theorem convTerms_neg (d k : Arr (NV K)) (nx ny nkx nky : Nat) (i j : Int) :
+    convTerms (negArr d) k nx ny nkx nky i j = (convTerms d k nx ny nkx nky i j).map Fl.neg := by
+  unfold convTerms negArr
+  simp only [List.map_flatMap, List.map_map]
+  apply List.flatMap_congr
+  intro ii _
+  apply List.map_congr_left
+  intro jj _
+  simp only [Function.comp, fl_mul_neg]
+
+theorem convolve_neg (d k : Arr (NV K)) (nx ny nkx nky : Nat) :
+    convolve (negArr d) k nx ny nkx nky = (convolve d k nx ny nkx nky).map Fl.neg := by
+  unfold convolve
+  rw [List.map_map]
+  apply List.map_congr_left
+  intro c _
+  simp only [Function.comp, convCell, convTerms_neg, fsum_neg]
+  split
+  · rfl
+  · simp [conv_fill_nan]
+
+theorem zscore_neg (m gm gs : NV K) :
+    Fl.div (Fl.sub (Fl.neg m) (Fl.neg gm)) gs = Fl.neg (Fl.div (Fl.sub m gm) gs) := by
+  cases m <;> cases gm <;> cases gs <;> simp
+  rename_i a b c
+  by_cases h : c = 0
+  · simp [h]
+  · simp [h]; ring
+
+theorem hotspotsZ_neg (d k : Arr (NV K)) (rows cols krows kcols : Nat) :
+    hotspotsZ (negArr d) k rows cols krows kcols =
+      (hotspotsZ d k rows cols krows kcols).map fun zs => zs.map Fl.neg := by
+  unfold hotspotsZ
+  simp only [cellsOf_neg, nanmean_neg, nanstd_neg, convolve_neg]
+  split
+  · rfl
+  · simp only [Except.map, List.map_map]
+    congr 1
+    apply List.map_congr_left
+    intro m _
+    simp only [Function.comp, zscore_neg]
 
 end NVPart
 end XrsVerif.Focal
